@@ -1,5 +1,5 @@
 SPECIFICATION Spec
-CONSTANTS SelfNamed = FALSE Lean = FALSE DirSet = {1, 2, 3} MaxDefs = 3 Rich = FALSE Entry = "namespace" Bodies = {"ok","print","assertfail","nomode"} Dups = FALSE AsFoundTwoObjects = FALSE AsFoundPrintPath = FALSE
+CONSTANTS SelfNamed = FALSE Lean = FALSE DirSet = {1, 2, 3} MaxDefs = 2 Rich = FALSE Entry = "files" Bodies = {"ok","print","assertfail"} Dups = TRUE AsFoundTwoObjects = FALSE AsFoundPrintPath = FALSE
 INVARIANT ResolvesExactly
 INVARIANT BadReferenceFails
 INVARIANT AcyclicWhenOk
